@@ -155,6 +155,18 @@ def parseFeatures (lines : List Str) : Except Err (List GbFeat) :=
 def printFeatures (fs : List GbFeat) : List Str :=
   fs.flatMap (fun f => featLines f.key (printLocs f.locs) f.quals)
 
+/-- `_check_expressible` (repaired writer): the feature key fits the 15-character key column and has
+no blank at either end; qualifier keys contain no whitespace, `=` or `"`; values contain no `"`. -/
+def featCheck (f : GbFeat) : Bool :=
+  !f.key.isEmpty && decide (f.key.length ≤ 15) && (strip f.key == f.key) &&
+  f.quals.all (fun q =>
+    q.1.all (fun c => !isSpace c && c != '=' && c != '"') &&
+    (match q.2 with | none => true | some v => !v.contains '"'))
+
+/-- `set_annotation`: all features are checked before anything is written. -/
+def printFeaturesE (fs : List GbFeat) : Except Err (List Str) :=
+  if fs.all featCheck then .ok (printFeatures fs) else .error .valueError
+
 /-! ## ORIGIN -/
 
 def lowerC (c : Char) : Char := if 'A' ≤ c ∧ c ≤ 'Z' then Char.ofNat (c.toNat + 32) else c
